@@ -95,6 +95,33 @@ mod big {
         let mut hs: Vec<*const Rc<Big>> = Vec::with_capacity(n);
         hs.push(&first as *const Rc<Big>);
         let mut adoptions = 0usize;
+        if shape == "hub" {
+            // wide frontier: the hub adopts every spoke and every spoke adopts the hub back
+            let hubcap = n + 2;
+            let hub = Rc::new(Big { out: RefCell::new(Vec::with_capacity(hubcap)) });
+            let mut adoptions = 0usize;
+            for _ in 1..n {
+                let spoke = mk();
+                let back = Rc::clone(&hub);
+                unsafe { Rc::adopt_unchecked(&spoke, &back) };
+                spoke.out.borrow_mut().push(back);
+                unsafe { Rc::adopt_unchecked(&hub, &spoke) };
+                hub.out.borrow_mut().push(spoke);
+                adoptions += 2;
+            }
+            let _ = cactusref::verif::take_trace_counters();
+            DESTROYED.store(0, Relaxed);
+            let t0 = std::time::Instant::now();
+            drop(hub);
+            let (calls, popped, visited, scanned) = cactusref::verif::take_trace_counters();
+            let secs = t0.elapsed().as_secs_f64();
+            let d = DESTROYED.load(Relaxed);
+            let ok = d == n && calls == 1 && visited == n && popped <= 1 + adoptions && scanned <= 2 * adoptions + n;
+            return format!(
+                "{} destroyed={} of {} before_last=0 calls={} visited={} popped={} scanned={} adoptions={} secs={:.3}",
+                if ok { "ok" } else { "FAIL" }, d, n, calls, visited, popped, scanned, adoptions, secs
+            );
+        }
         unsafe {
             for i in 1..n {
                 let h = mk();
@@ -128,6 +155,7 @@ mod big {
                         }
                     }
                 }
+                "hub" => {}
                 "clique" => {
                     for i in 0..n {
                         for j in 0..n {
@@ -159,7 +187,7 @@ mod big {
             && popped <= 1 + adoptions
             && scanned <= 2 * adoptions + n;
         format!(
-            "{} destroyed={} of {} before_last={} calls={} visited={} popped={} scanned={} adoptions={} secs={:.2}",
+            "{} destroyed={} of {} before_last={} calls={} visited={} popped={} scanned={} adoptions={} secs={:.3}",
             if ok { "ok" } else { "FAIL" },
             d, n, before_last, calls, visited, popped, scanned, adoptions, secs
         )
